@@ -57,15 +57,18 @@ def _page_text(o):
 _meter = None
 
 
-def run_all(data, password="", caching=True):
-    """-> list of (entry, outcome class, lines, digest-able result or exception text)"""
+def run_all(data, password="", caching=True, budgets=None):
+    """-> list of (entry, outcome class, lines, digest-able result or exception text)
+    budgets: optional per-entry line budgets replacing K * len + C (the scaling check)"""
     global _meter
     if _meter is None:
         _meter = Meter()
         logging.disable(logging.CRITICAL)
     out = []
     b = budget_for(data)
-    for e in ENTRIES:
+    for i, e in enumerate(ENTRIES):
+        if budgets is not None:
+            b = budgets[i]
         res, exc = _meter.run(_entry(e, data, password, caching), b, cpu=CPU_LIMIT)
         oc = classify(_meter, exc)
         detail = res if exc is None else "%s: %s" % (type(exc).__name__, str(exc)[:200])
